@@ -45,6 +45,7 @@ var out = bufio.NewWriterSize(os.Stdout, 1<<20)
 // world: shared across factories of one case
 
 type world struct {
+	inuse0   int64
 	now      time.Time
 	faults   []string
 	calls    []string
@@ -365,7 +366,7 @@ var secretKind = "fake"
 var keyRng = prng.New(0xC0FFEE)
 
 func newWorld() *world {
-	w := &world{now: time.Unix(t0, 0)}
+	w := &world{now: time.Unix(t0, 0), inuse0: securememory.InUseCounter.Count()}
 	w.ms = persistence.NewMemoryMetastore()
 	w.crypto = aead.NewAES256GCM()
 	k, err := kms.NewStatic("thisIsAStaticMasterKeyForTesting", aead.NewAES256GCM())
@@ -718,7 +719,8 @@ func (w *world) exec(line string) {
 			}
 		case "end":
 			w.closeAll()
-			obs = "res=ok | " + w.secLine()
+			// securememory's own in-use accounting must be back where it was when the case started
+			obs = fmt.Sprintf("res=ok | %s | inuse=%d", w.secLine(), securememory.InUseCounter.Count()-w.inuse0)
 		default:
 			obs = "bad-op"
 		}
